@@ -154,6 +154,17 @@ CHECKS = {
    design_ref='DESIGN.md 3.6, 6 (C13)',
    note='The Python interpreter is the oracle for the meaning of rendered text.',
    technique='TLA+ transcription of the renderer + TLC enumeration of values + exec() replay'),
+ 'C14': dict(
+   engine='preview', category='model_checking',
+   text=('Preview.tla models a pending upgrade as lowering steps, some iterating over sets, lowered twice independently (preview run, '
+         'execution run); TLC checks PreviewEqualsExecution / LoweringDeterministic with sorted iteration and requires them to FAIL '
+         'without it. Pending upgrades carrying the multi-entry-set hazard (unique_together / index_together changes with 2-4 entries) '
+         'and the two-app chain histories are run as `evolve --sql`, `evolve --execute`, `evolve --hint`, `evolve --hint --sql` in '
+         'fresh interpreters under several PYTHONHASHSEED values on copies of one database; executed statements (parameters '
+         'substituted by the documented rule) must equal the preview, and every output must be identical across seeds.'),
+   design_ref='DESIGN.md 6 (C14)',
+   note='Only evolution SQL is previewed by the command; model creation and migrations are outside the comparison.',
+   technique='TLA+ model of two independent lowerings with set-iteration nondeterminism + TLC; subprocess replay across hash seeds'),
 }
 
 NOT_YET = {
@@ -201,6 +212,8 @@ def main():
              'kind_free_text': 'signature pairs from Hint.tla rebuilt as real ProjectSignatures: Diff, hint, simulate, __eq__'},
             {'name': 'codec', 'path': 'harness/engines/codec.py', 'serves_properties': ['C06', 'C13'],
              'kind_free_text': 'values of Codec.tla concretised: storage round trip through Version rows; hint text exec()'},
+            {'name': 'preview', 'path': 'harness/engines/preview.py', 'serves_properties': ['C14'],
+             'kind_free_text': 'pending upgrades run as evolve --sql / --execute / --hint in fresh interpreters under several hash seeds'},
             {'name': 'refs', 'path': 'harness/engines/refs.py', 'serves_properties': ['C11'],
              'kind_free_text': 'TLC-enumerated reference graphs and rename/delete sequences replayed into real simulate() methods'},
             {'name': 'evograph', 'path': 'harness/engines/evograph.py', 'serves_properties': ['C09'],
